@@ -131,10 +131,39 @@ func sizeAdversarialProfile(r *Rng, cfg Config) *Profile {
 	}
 }
 
+// durableReach checks reachability on the durable registers alone (what a fresh reader sees after a commit).
+func (w *World) durableReach() *Violation {
+	view, rvx := BuildView(w.Ledger.Clone())
+	if rvx != nil {
+		return w.viol(rvx.class, "%s", rvx.msg)
+	}
+	var roots []RegID
+	for _, r := range w.Model.Roots() {
+		if !r.Volatile {
+			roots = append(roots, r.VID)
+		}
+	}
+	if _, rvx := view.CheckReachability(roots); rvx != nil {
+		return w.viol(rvx.class, "after commit, durable registers: %s", rvx.msg)
+	}
+	w.Stats.Inc("reach.durable-checked")
+	return nil
+}
+
 func regProp(id, level, rule string, verdict []string, which regWhich, nontrivial func(w *World, run *Stats, levels, slabs int) bool, expected []string) {
 	stdProp(&PropSpec{ID: id, Level: level, Verdict: verdict, Rule: rule, ExpectedReach: expected}, stdHooks{
 		config:  func(r *Rng, tier string) Config { return baseConfig(r, "size-adversarial", tier) },
 		profile: sizeAdversarialProfile,
+		setup: func(w *World) {
+			if which.reach {
+				w.AfterStep = func(w *World, st *Step) *Violation {
+					if st.Op == "commit" || st.Op == "reopen" {
+						return w.durableReach()
+					}
+					return nil
+				}
+			}
+		},
 		check: func(w *World, final bool) *Violation {
 			if v := w.regCheck(which); v != nil {
 				return v
@@ -171,7 +200,7 @@ func init() {
 		[]string{"reach.inlined-children", "reach.compact-encoding", "reach.external-group", "reach.large-value"})
 
 	regProp("C09", "exploration",
-		"histories in which the driver disposes of every value handed back (recursive pop + removal of referenced slabs) crossing large-value, inline<->standalone, collision-group, merge and promotion lifecycles; after every stride the register set of the view must equal the set reachable from the live roots by the independent parser, each non-root referenced once, one owner per tree; non-trivial = a removal or overwrite returned a slab reference that was disposed of and >= 3 slabs existed; distinct by trace hash",
+		"histories in which the driver disposes of every value handed back (recursive pop + removal of referenced slabs) crossing large-value, inline<->standalone, collision-group, merge and promotion lifecycles; after every stride the register set of the view (and after every commit the durable register set alone) must equal the set reachable from the live roots by the independent parser, each non-root referenced once, one owner per tree; non-trivial = a removal or overwrite returned a slab reference that was disposed of and >= 3 slabs existed; distinct by trace hash",
 		[]string{"reach.", "dispose", "reg.parse"},
 		regWhich{reach: true},
 		func(w *World, run *Stats, levels, slabs int) bool { return run.C["dispose.slabref"] > 0 && slabs >= 3 },
